@@ -434,3 +434,12 @@ def check_C13(tier_):
                        "Frontend!CliConfig / PyConfig is the specification of what the options denote; the driver's own mapping is checked against it by TLC (drift if different)"]
     return res
 CHECKS["C13"] = check_C13
+
+_c10_core = CHECKS["C10"]
+def check_C10_full(tier_):
+    """C10 also at the front ends: the opcodes of what the CLI / batch mode / action wrapper wrote, against the flags the options denote"""
+    res = _c10_core(tier_)
+    st = hist.front_stage(tier_, tree_key())
+    add_hist(res, st, "C10", "front", lambda f: (f["why"][:50], "%s" % f["why"][:500], {"record": {k: v for k, v in (f["record"] or {}).items() if k != "gotb"}}))
+    return res
+CHECKS["C10"] = check_C10_full
